@@ -223,6 +223,30 @@ def run_contour_replace(eng, p):
     return "ok"
 
 
+def run_index(eng, p):
+    """the `index` feature is an enumeration 1..N of the events in the file:
+    appended in append mode, restarted in replace mode"""
+    m, n, mode = p["m"], p["n"], p["mode"]
+    f = symh5.File("a.rtdc", "w")
+    g = f.require_group("events")
+    if m:
+        g.create_dataset("index", data=np.arange(1, m + 1), chunks=(10,),
+                         maxshape=(None,))
+        g.create_dataset("deform", data=np.linspace(.1, .2, m), chunks=(10,),
+                         maxshape=(None,))
+    hw = make_writer(f, mode=mode)
+    user = SArr([eng.int("user_index%d" % i) for i in range(n)], int)
+    with quiet():
+        hw.store_feature("index", user)
+    got = [int(x) for x in list(g["index"].data)]
+    exp = list(range(1, n + 1)) if mode == "replace" else \
+        list(range(1, m + n + 1))
+    eng.prove(z3.BoolVal(got == exp),
+              "index: enumeration 1..N of the stored events (%s mode)" % mode,
+              info={"stored": got, "expected": exp})
+    return "ok"
+
+
 def run_contour(eng, p):
     if p.get("replace"):
         return run_contour_replace(eng, p)
@@ -395,7 +419,8 @@ def run_logs(eng, p):
 def run_case(name, params):
     eng = Engine(timeout_ms=20000)
     fn = {"nd": run_nd_step, "history": run_history, "mask": run_mask,
-          "contour": run_contour, "logs": run_logs}[params["kind"]]
+          "contour": run_contour, "logs": run_logs,
+          "index": run_index}[params["kind"]]
     eng.explore(lambda e: fn(e, params))
     return eng.stats()
 
@@ -426,6 +451,10 @@ def cases(tier, seed):
     for m in (0, 2):
         out.append(("contour m=%d n=3 two calls" % m, dict(
             kind="contour", m=m, n=3, reopened=False, split=1)))
+    for mode in ("append", "replace"):
+        for m, n in ((0, 2), (3, 2), (2, 3)):
+            out.append(("index %s m=%d n=%d" % (mode, m, n),
+                        dict(kind="index", m=m, n=n, mode=mode)))
     for m, n in ((1, 1), (2, 1), (1, 3), (3, 2)):
         out.append(("contour replace mode m=%d n=%d" % (m, n), dict(
             kind="contour", m=m, n=n, replace=True)))
@@ -550,6 +579,23 @@ def replay(case, params, v):
                   "truncated"
             if fails and any(len(x.encode()) != len(x) for x in newl):
                 key = "write_text|multi-byte-line|truncated"
+        elif p["kind"] == "index":
+            m, n, mode = p["m"], p["n"], p["mode"]
+            if m:
+                with RTDCWriter(path, mode="reset") as hw:
+                    hw.store_feature("deform", np.linspace(.1, .2, m))
+                    hw.store_feature("index", np.arange(1, m + 1))
+            with RTDCWriter(path, mode=mode) as hw:
+                hw.store_feature("index", np.arange(50, 50 + n))
+            with h5py.File(path, "r") as h:
+                got = h["events/index"][:].tolist()
+            exp = list(range(1, n + 1)) if mode == "replace" else \
+                list(range(1, m + n + 1))
+            if got != exp:
+                fails.append("index stored in %s mode over %d existing "
+                             "events is %r, expected %r" % (mode, m, got,
+                                                            exp))
+            key = "store_feature|index-enumeration|%s" % mode
         elif p["kind"] == "contour" and p.get("replace"):
             m, n = p["m"], p["n"]
             conts = [np.arange(10).reshape(5, 2) + 100 * i
